@@ -18,7 +18,7 @@ type hHW struct {
 
 func (y *hHW) create() Entity {
 	e := y.w.NewEntity()
-	vAssume(y.n < hDumpH)
+	vBound(y.n < hDumpH, "handles<=8")
 	y.h[y.n] = e
 	y.n++
 	return e
@@ -64,7 +64,7 @@ func hSuffix(ws []*hHW, all *[2 * hDumpH]Entity, nall *int, op int, k int) {
 				vAssert(e == first, "original and loaded worlds issue identical handles")
 			}
 		}
-		vAssume(*nall < 2*hDumpH)
+		vBound(*nall < 2*hDumpH, "handles<=16")
 		all[*nall] = first
 		*nall++
 		return
